@@ -466,7 +466,6 @@ void harness_step(void)
 static struct evhttp_connection *vp_new_evcon;
 struct evhttp_connection *vp_cut_get_request_connection(struct evhttp *http, evutil_socket_t fd, struct sockaddr *sa, ev_socklen_t salen, struct bufferevent *bev)
 { (void)http; (void)fd; (void)sa; (void)salen; (void)bev; return vp_new_evcon; }
-int evutil_closesocket(evutil_socket_t s) { (void)s; return 0; }
 void harness_step(void)
 {
 	struct sockaddr_storage ss;
